@@ -1,11 +1,13 @@
 pub mod bind;
 pub mod c01;
 pub mod c02;
+pub mod c03;
 pub mod c04;
 pub mod c05;
 pub mod c06;
 pub mod c07;
 pub mod c10;
+pub mod c12;
 pub mod c13;
 pub mod c14;
 pub mod c15;
@@ -24,6 +26,7 @@ pub fn run(id: &str, tier: Tier) -> Option<Report> {
     Some(match id {
         "C01" => c01::run(tier),
         "C02" => c02::run(tier),
+        "C03" => c03::run(tier),
         "C04" => c04::run(tier),
         "C05" => c05::run(tier),
         "C06" => {
@@ -58,6 +61,7 @@ pub fn run(id: &str, tier: Tier) -> Option<Report> {
             finalize_counts(&mut rep);
             rep
         }
+        "C12" => c12::run(tier),
         "C13" => c13::run(tier),
         "C14" => c14::run(tier),
         "C15" => c15::run(tier),
@@ -85,6 +89,7 @@ pub fn replay(id: &str, v: &serde_json::Value) -> i32 {
     match id {
         "C01" => c01::replay(v),
         "C02" => c02::replay(v),
+        "C03" => c03::replay(v),
         "C04" => c04::replay(v),
         "C05" => c05::replay(v),
         "C06" if v["part"] == "binding" => bind::replay(v),
@@ -96,6 +101,7 @@ pub fn replay(id: &str, v: &serde_json::Value) -> i32 {
         }
         "C09" => table::replay_table(v, false, true),
         "C10" => c10::replay(v),
+        "C12" => c12::replay(v),
         "C13" => c13::replay(v),
         "C14" => c14::replay(v),
         "C15" => c15::replay(v),
